@@ -41,6 +41,10 @@ def cms_grid(rng, randomise):
         {"kind": "linear", "width": d, "depth": w},          # transposed shape of the base configuration
         {"kind": "linear", "width": w + 2**16, "depth": d},
     ]
+    # a log16 and a log8 sketch that agree on *every* parameter value (only the counter type differs)
+    g.append({"kind": "log16", "width": w, "depth": d, "max_count": mc8, "num_reserved": nr8})
+    g.append({"kind": "log8", "width": w, "depth": d, "max_count": mc16, "num_reserved": min(nr16, 200)})
+    g.append({"kind": "log16", "width": w, "depth": d, "max_count": mc16, "num_reserved": min(nr16, 200)})
     for kind, mc, nr in (("log16", mc16, nr16), ("log8", mc8, nr8)):
         base = {"kind": kind, "width": w, "depth": d, "max_count": mc, "num_reserved": nr}
         g.append(base)
